@@ -408,6 +408,72 @@ def run(ctx):
             ok = any(c.a["name"] == "args" for c in ro.call_nodes())
         ctx.ob("R4", "initial-then-appended", ok, "without -I the command line must be the initial arguments followed by the appended ones (Command::args(initial).args(extra_args)); found %s" % [(prim.site(ex, b), sorted(k)) for b, _, k in descs], fn=ex, how="provenance + dominance")
 
+    # every part of the action that `execute` puts on the command line is a part that `new` offered to the limiters:
+    # the fields of ExecAction::Command read by the one are read by the other
+    if on is not None and ex is not None:
+        def command_fields(fn_):
+            out = set()
+            def walk(j):
+                if isinstance(j, list):
+                    for x_ in j:
+                        walk(x_)
+                elif isinstance(j, dict):
+                    pr = j.get("p")
+                    if "l" in j and isinstance(pr, list):
+                        for i_, e in enumerate(pr):
+                            if isinstance(e, dict) and e.get("vn") == "Command" and i_ + 1 < len(pr) and isinstance(pr[i_ + 1], dict) and "f" in pr[i_ + 1] \
+                                    and prim.strip_generics(str(pr[i_ + 1].get("of", ""))).endswith("ExecAction"):
+                                out.add(pr[i_ + 1].get("n"))
+                    for k_, v_ in j.items():
+                        if k_ != "sp":
+                            walk(v_)
+            for b_ in fn_.reachable():
+                for s_ in fn_.blocks[b_].stmts:
+                    walk(s_.j)
+                walk(fn_.blocks[b_].term.j)
+            return out
+        fx, fo = command_fields(ex), command_fields(on)
+        ctx.ob("R4", "executed-parts-were-charged", bool(fx) and fx <= fo,
+               "CommandBuilder::execute builds the command line from the parts %s of ExecAction::Command, CommandBuilderOptions::new offers the parts %s to the limiters; a part that is executed but never charged is not counted against -s or the system limit" % (sorted(fx), sorted(fo)),
+               fn=on, how="place reads of the variant's fields in both functions")
+        # and the offered list is the whole of those parts (no element skipped)
+        for b, t in on.calls():
+            if t.j.get("callee_name") == "collect":
+                o = prim.origin_of_operand(on, t.args[0])
+                if any(x.k == "variant" and str(x.a) == "Command" for x in o.walk()):
+                    names = [c.a["name"] for c in o.call_nodes()]
+                    extra = [n for n in names if n not in ("iter", "map", "as_ref", "deref", "cloned", "copied", "chain", "once", "into_iter", "as_slice", "as_os_str", "borrow")]
+                    ctx.ob("R4", "all-initial-arguments-offered", not extra, "the initial argument list is built with %s over the command's parts; an adaptor that drops or reorders elements (%s) leaves arguments uncharged" % (names, extra), fn=on, where=prim.site(on, b), how="provenance slice + allow-list")
+
+    # the chain is asked in the order the limiters were added and the first refusal decides `out_of_chars` (R1/R2); -x
+    # gives up only when the *size* stands in the way, so every counting limiter (-n, -L) must be asked before any size
+    # limiter (-s, the system budget): a batch that is full by count is then closed, not reported as too large
+    dxf = prog.fns.get(X + "do_xargs")
+    if dxf is not None:
+        ctx.analysed_fns.add(dxf.path)
+        adds = []
+        for b, t in dxf.calls():
+            if (t.callee or "").startswith(X + "LimiterCollection::add"):
+                inst = t.j.get("callee_inst") or ""
+                kind = "size" if "MaxCharsCommandSizeLimiter" in inst else ("count" if ("MaxArgsCommandSizeLimiter" in inst or "MaxLinesCommandSizeLimiter" in inst) else "?")
+                if kind == "?":
+                    o = prim.origin_of_operand(dxf, t.args[1])
+                    cs = " ".join(o.callees())
+                    kind = "size" if "MaxCharsCommandSizeLimiter" in cs else ("count" if ("MaxArgsCommandSizeLimiter" in cs or "MaxLinesCommandSizeLimiter" in cs) else "?")
+                adds.append((b, kind))
+        ctx.floor("R1", "limiters registered in do_xargs", len(adds), 4)
+        bad = []
+        for b1, k1 in adds:
+            if k1 != "size":
+                continue
+            after = dxf.reach_from(dxf.succs(b1))
+            for b2, k2 in adds:
+                if k2 != "size" and b2 in after:
+                    bad.append((prim.site(dxf, b1), prim.site(dxf, b2), k2))
+        ctx.ob("R1", "counting-limiters-asked-before-size-limiters", not bad and all(k != "?" for _, k in adds),
+               "limiters are asked in registration order and the first refusal decides out_of_chars; a size limiter registered at %s precedes a counting (or unrecognised) limiter registered later — kinds in order of appearance: %s" % ([x[:2] for x in bad][:3], [k for _, k in adds]),
+               fn=dxf, how="registration sites + reachability")
+
     # ---- R6 line accounting input: which arguments end an input line (shared with C05.R5) --------------------
     from ..engine import Ctx
     from . import c05
